@@ -4,8 +4,8 @@ from vlib import std, lab, common, hbuild, recipes, coq, tables
 
 PID = "C61"
 META = {
-    "text": "Theorems (Properties_C61.v, closed under the global context), for ALL action tables, cachemgr_passwd lists, http_access rule lists (over manager/all/localhost and negations), request-targets and Authorization values: (1) any answer of the cache manager itself (report, index page, password challenge, its own 404) is produced only when the http_access rules - first matching line decides, else the reverse of the last line, proved as two separate lemmas - allow the request, `manager` being the built-in url_regex matched on the percent-decoded effective URI; (2) that regex (`^[^:]+://[^/]+/squid-internal-mgr/`, case-sensitive because `+i` CLEARS REG_ICASE, text regenerated from cf.data.pre each run) means exactly 'non-empty colon-free scheme, ://, non-empty slash-free authority, the prefix' on the C string (iff, all byte strings); (3) for requests whose effective URI carries no user-info (http, https, ftp without login) every request the cache manager would handle matches `manager`, hence `http_access deny manager` as first line leaves no cache-manager answer of any kind (_partial); REFUTED at full strength: GET ftp://a%2Fb@<visible_hostname>:<port>/squid-internal-mgr/<action> is an internal manager request (checkForInternalAccess ignores scheme and user-info) whose decoded URI `ftp://a/b@host...` does not match the ACL, so `deny manager` + `allow all` lets the report out - known finding C61-manager-acl-ftp-userinfo, replayed against the running proxy on every run; (4) a report (action performed) implies: the action is in the table and is the URL path after the prefix up to ?/#; its first covering cachemgr_passwd line (action name or `all`; shown to be what PasswdGet computes) is not `disable`; if that line is a password then the Authorization field is Basic + base64(user:pass) with pass non-empty and equal to it as a C string; if no line covers it the action is not password-required; (5) exact password equality is REFUTED (configured + NUL + anything is admitted: String::cmp is strcmp) - known finding C61-password-nul-suffix; (6) disabled actions and password-required actions without a configured password get no report, no index and no 401 challenge (they are 404). (7) the explicit fuel of the two QueryParams loops of the model is always sufficient (the model is total). Tie: ACL text, URL prefixes, `all`/`index` keywords regenerated from the tree (a changed default ACL breaks C61_manager_acl_is_the_modelled_regex); extracted model diffed against the real squid binary (built from the working tree) on generated configurations x requests, the action table being read from the running binary (`menu`); the components that link without the proxy (Uri::parse/absolute/DecodeOrDupe, rfc1738_unescape, RegexPattern+regexec on the configured pattern, Mgr::QueryParams::Parse) are additionally diffed against the model in a unit harness (harness/h_mgr.cc) with Python re / RFC 3986 decoding as reference oracles.",
-    "note": "partial: the theorems are about the transcribed decision functions (MgrModel.v); that the event-driven proxy runs exactly these steps in this order (clientProcessRequest -> clientAccessCheck -> internalStart -> CacheManager::start) rests on the end-to-end correspondence. Not covered: SMP (Mgr::Forwarder/Coordinator), https_port/intercept/accel ports, hostname_aliases, append_domain, global_internal_static, multiple Authorization fields, ACL types other than the built-in manager/all/localhost, cache_object:// (gone in this tree). Destructive actions (shutdown, reconfigure, rotate) are only ever requested in situations where the property says they must be refused. Base64 decoding is B64Model.b64_decode (C36, libnettle variant); Tokenizer::prefix/int64 are TokModel (C50/C27) with their proved specifications. Print Assumptions: every theorem is closed under the global context. Trusted: Coq kernel, extraction, gen/gen_mgr.py, harness/h_mgr.cc, vlib/lab.py.",
+    "text": "Theorems (Properties_C61.v, closed under the global context), for ALL action tables, cachemgr_passwd lists, http_access rule lists (over manager/all/localhost and negations), request-targets (any scheme, any user-info) and Authorization values: (1) any answer of the cache manager itself (report, index page, password challenge, its own 404) is produced only when the http_access rules - first matching line decides, else the reverse of the last line, proved as two separate lemmas - allow the request, `manager` being the built-in url_regex matched on the percent-decoded effective URI; (2) that regex (`^[^:]+://[^/]+/squid-internal-mgr/`, case-sensitive because `+i` CLEARS REG_ICASE, text regenerated from cf.data.pre each run) means exactly 'non-empty colon-free scheme, ://, non-empty slash-free authority, the prefix' on the C string (iff, all byte strings); (3) every request the cache manager would handle (internal: http/https scheme since 6b03ef7, own port and host name; manager path prefix) matches `manager`, hence `http_access deny manager` as first line leaves no cache-manager answer of any kind - at full strength, no restriction on scheme or user-info (the former bypass ftp://a%2Fb@host:port/squid-internal-mgr/x is no longer internal: it is refused or handed to the ftp gateway like any ftp URL; kept as a regression scenario replayed against the running proxy); (4) a report (action performed) implies: the action is in the table and is the URL path after the prefix up to ?/#; its first covering cachemgr_passwd line (action name or `all`; shown to be what PasswdGet computes) is not `disable`; if that line is a password then the Authorization field is Basic + base64(user:pass) with pass non-empty and EQUAL to the configured C string (same length and bytes, since 5479385; for NUL-free configured passwords supplied = configured); if no line covers it the action is not password-required; (5) disabled actions and password-required actions without a configured password get no report, no index and no 401 challenge (they are 404); (6) the explicit fuel of the two QueryParams loops of the model is always sufficient (the model is total). Tie: ACL text, URL prefixes, `all`/`index` keywords regenerated from the tree (a changed default ACL breaks C61_manager_acl_is_the_modelled_regex); extracted model diffed against the real squid binary (built from the working tree) on generated configurations x requests, the action table being read from the running binary (`menu`); the components that link without the proxy (Uri::parse/absolute/DecodeOrDupe, rfc1738_unescape, RegexPattern+regexec on the configured pattern, Mgr::QueryParams::Parse) are additionally diffed against the model in a unit harness (harness/h_mgr.cc) with Python re / RFC 3986 decoding as reference oracles.",
+    "note": "partial: the theorems are about the transcribed decision functions (MgrModel.v); that the event-driven proxy runs exactly these steps in this order (clientProcessRequest -> clientAccessCheck -> internalStart -> CacheManager::start) rests on the end-to-end correspondence. Not covered: SMP (Mgr::Forwarder/Coordinator), https_port/intercept/accel ports, hostname_aliases, append_domain, global_internal_static, multiple Authorization fields, ACL types other than the built-in manager/all/localhost, cache_object:// (gone in this tree); what the ftp gateway does with a non-internal ftp:// target (the lab ends it with never_direct; the observable is only 'handed to forwarding, no manager content'). Destructive actions (shutdown, reconfigure, rotate) are only ever requested in situations where the property says they must be refused. Base64 decoding is B64Model.b64_decode (C36, libnettle variant); Tokenizer::prefix/int64 are TokModel (C50/C27) with their proved specifications. Print Assumptions: every theorem is closed under the global context. Trusted: Coq kernel, extraction, gen/gen_mgr.py, harness/h_mgr.cc, vlib/lab.py.",
     "technique": "Coq proof (case analysis of the transcribed transaction, induction on byte lists for the regex/percent-coding lemmas, vm_compute witnesses for the refutations) + end-to-end differential correspondence of the extracted model against the running squid + unit-level correspondence of the URI/regex/query components + independent oracle (rule-list evaluation, URL action name, first covering cachemgr_passwd line, RFC 7617 credentials)",
 }
 
@@ -173,8 +173,8 @@ _start_lock = threading.Lock()
 
 
 def conf_text(cfg):
-    # ftp:// targets are never internal (6b03ef7): they go to the ftp gateway; `never_direct` makes that end at once in
-    # 503 ERR_CANNOT_FORWARD (no peer) instead of a DNS lookup / FTP dialogue with the lab's HTTP stubs
+    # ftp:// targets are never internal (6b03ef7): they go to the ftp gateway; `never_direct` makes that end at once (no
+    # peer: 502/503 from FwdState) instead of a DNS lookup / FTP dialogue with the lab's HTTP stubs
     extra = "acl verif_ftp proto FTP\nnever_direct allow verif_ftp\n"
     extra += "".join("cachemgr_passwd %s %s\n" % (p, " ".join(a)) for p, a in cfg["pw"])
     access = "\n".join("http_access %s %s" % ("allow" if r[0] == "+" else "deny", " ".join(ATOM_TXT[c] for c in r[1:]))
@@ -227,8 +227,9 @@ def observe(r, forwarded):
         return "badreq"
     if err == "ERR_UNSUP_REQ" and r.status == 501:
         return "unsupported"
-    if err == "ERR_CANNOT_FORWARD" and r.status == 503:
-        return "forwarded"        # passed http_access and was handed to forwarding (which the lab config ends: see conf_text)
+    if (err, r.status) in (("ERR_CANNOT_FORWARD", 503), ("ERR_READ_ERROR", 502)):
+        return "forwarded"        # passed http_access and was handed to forwarding, which the lab config ends at once for
+                                  # ftp:// (see conf_text; this tree answers 502 ERR_READ_ERROR, HIER_NONE)
     if err == "MGR_INDEX":
         return "index"
     if err == "ERR_CACHE_MGR_ACCESS_DENIED" and r.status == 401:
